@@ -477,6 +477,19 @@ Reading expect_unary(ipr::Category_code, const ipr::Node& operand, const ipr::Ty
 Reading expect_binary(ipr::Category_code, const ipr::Node& a, const ipr::Node& b, const ipr::Type* type, bool classic);
 // slots every composite type must show (type == typename, natural transfer)
 void expect_composite(Reading&, World&);
+
+// A Warehouse the harness places in the arena for the duration of one call (its storage is poisoned right afterwards, so
+// the library must have copied what it keeps).  It is released on every path, also when an injected failure interrupts
+// the operation between its creation and the call.
+struct ArenaWarehouse {
+   impl::Warehouse<ipr::Type>* p;
+   ArenaWarehouse() { sim::SutScope s; p = new impl::Warehouse<ipr::Type>(); }
+   ~ArenaWarehouse() { release(); }
+   void release() { if (p != nullptr) { sim::SutScope s; delete p; p = nullptr; } }
+   impl::Warehouse<ipr::Type>& operator*() const { return *p; }
+   impl::Warehouse<ipr::Type>* operator->() const { return p; }
+   ArenaWarehouse(const ArenaWarehouse&) = delete;
+};
 void expect_stmt_defaults(Reading&);
 
 std::string describe_op(const Op&);
